@@ -242,7 +242,7 @@ def stages(ctx):
     big = ctx.tier == 'thorough'
     return [
         Stage('graph', run_case, graphgen.graph_spec(max_steps=25),
-              quick=500, thorough=5000),
+              quick=1200, thorough=6000),
         Stage('graph_large', run_case, graphgen.graph_spec(max_steps=120),
-              quick=30, thorough=400),
+              quick=80, thorough=500),
     ]
